@@ -40,12 +40,12 @@ def t4(sx, ver, mle, mlc, mfs, oldlens, lens, typ, fsci):
     return ndefflow.roundtrip(sx, w, n)
 
 
-def lens_for(cap, lens):
+def lens_for(cap, lens, slack=1):
     out = []
     for x in lens:
         if isinstance(x, str):
             x = cap + int(x[3:] or 0) if x.startswith("cap") else int(x)
-        if 0 <= x <= cap + 1 and x not in out:
+        if 0 <= x <= cap + slack and x not in out:
             out.append(x)
     return out
 
